@@ -57,33 +57,35 @@ def c16_oracle(case, obs):
                     if inflight_lb > wnd[K]:
                         out.append(("step %d: %s has at least %d bytes in flight after emitting seq %d len %d, "
                                     "but the last window its peer advertised to it is %d" % (i, K, inflight_lb, p[5], occupies, wnd[K]), None))
-        elif n in ("deliver", "dup") and o.get("r") == "ok" and o["p"][0] == 0:
-            p = o["p"]
-            K = (p[2], p[4], p[1], p[3])          # the receiving endpoint, as a sender key
-            fl = p[7]
-            if fl & F.F_RST:
-                wnd.pop(K, None)
-                continue
-            if fl & F.F_SYN and not fl & F.F_ACK:
-                if K not in wnd and K not in est:
-                    wnd[K] = p[8]                  # child: snd_wnd := window of the SYN
-                continue
-            if fl & F.F_SYN and fl & F.F_ACK:
-                if K in iss and K not in est:
-                    est[K] = True
-                    wnd[K] = p[8]
-                elif K in est:
-                    wnd[K] = p[8]
-                continue
-            if fl & F.F_ACK:
-                if K not in est:
-                    if K in iss and p[6] == iss[K] + 1 and K in wnd:
+        elif n in ("deliver", "dup", "flush") and o.get("r") == "ok":
+            for p in ([o["p"]] if n != "flush" else o["pk"]):
+                if p[0] != 0:
+                    continue
+                K = (p[2], p[4], p[1], p[3])          # the receiving endpoint, as a sender key
+                fl = p[7]
+                if fl & F.F_RST:
+                    wnd.pop(K, None)
+                    continue
+                if fl & F.F_SYN and not fl & F.F_ACK:
+                    if K not in wnd and K not in est:
+                        wnd[K] = p[8]                  # child: snd_wnd := window of the SYN
+                    continue
+                if fl & F.F_SYN and fl & F.F_ACK:
+                    if K in iss and K not in est:
                         est[K] = True
                         wnd[K] = p[8]
+                    elif K in est:
+                        wnd[K] = p[8]
                     continue
-                if K in wnd:
-                    wnd[K] = p[8]
-                    maxack[K] = max(maxack.get(K, 0), p[6])
+                if fl & F.F_ACK:
+                    if K not in est:
+                        if K in iss and p[6] == iss[K] + 1 and K in wnd:
+                            est[K] = True
+                            wnd[K] = p[8]
+                        continue
+                    if K in wnd:
+                        wnd[K] = p[8]
+                        maxack[K] = max(maxack.get(K, 0), p[6])
         elif n == "write" and i > 0 and script[i - 1][0] == "netstat" and c[1] in addrs:
             loc, peer = addrs[c[1]]
             rows = [e for e in ob[i - 1]["ns"] if e[0] == 0 and tuple(e[3]) == loc and e[4] and tuple(e[4]) == peer
